@@ -872,6 +872,12 @@ Proof.
 Qed.
 
 (* ================================================================= registration (registry.go) *)
+Lemma schema_eqb_eq a : forall b, schema_eqb a b = true <-> a = b.
+Proof.
+  induction a as [|x a IH]; intros [|y b]; simpl; split; intros H; try reflexivity; try discriminate.
+  - apply andb_true_iff in H as [H1 H2]. apply Nat.eqb_eq in H1. apply IH in H2. subst; reflexivity.
+  - inversion H; subst. rewrite Nat.eqb_refl. simpl. apply IH. reflexivity.
+Qed.
 Lemma kind_eqb_eq a b : kind_eqb a b = true <-> a = b.
 Proof. destruct a, b; simpl; split; intros H; try reflexivity; discriminate. Qed.
 Lemma map_load_app_some m l k v : map_load m k = Some v -> map_load (m ++ l) k = Some v.
@@ -933,9 +939,9 @@ Proof.
     destruct (map_load (rmap s) (ro_name (rt_opts th))) as [id|] eqn:L.
     + destruct (nth_error (robjs s) id) as [b|] eqn:G; [|exfalso; eapply W; eauto].
       destruct (kind_eqb (rb_kind b) (ro_kind (rt_opts th))) eqn:K; simpl in St.
-      * destruct (Nat.eqb_spec (rb_nl b) (ro_nl (rt_opts th))); simpl in St; inversion St; subst; clear St;
+      * destruct (schema_eqb (rb_nl b) (ro_nl (rt_opts th))) eqn:SE; simpl in St; inversion St; subst; clear St;
           apply rconcl_done; auto; try (intros; discriminate).
-        intros i E. inversion E; subst. split; [exact L|]. exists b. apply kind_eqb_eq in K. auto.
+        intros i E. inversion E; subst. split; [exact L|]. exists b. apply kind_eqb_eq in K. apply schema_eqb_eq in SE. auto.
       * inversion St; subst; clear St. apply rconcl_done; auto; intros; discriminate.
     + inversion St; subst; clear St. unfold rconcl. split; [apply rmono_refl|]. split; [exact W|].
       split; [intros _ i E; simpl in E; discriminate|]. split; [reflexivity|].
@@ -944,9 +950,9 @@ Proof.
     destruct (map_load (rmap s) (ro_name (rt_opts th))) as [id|] eqn:L.
     + destruct (nth_error (robjs s) id) as [b|] eqn:G; [|exfalso; eapply W; eauto].
       destruct (kind_eqb (rb_kind b) (ro_kind (rt_opts th))) eqn:K; simpl in St.
-      * destruct (Nat.eqb_spec (rb_nl b) (ro_nl (rt_opts th))); simpl in St; inversion St; subst; clear St;
+      * destruct (schema_eqb (rb_nl b) (ro_nl (rt_opts th))) eqn:SE; simpl in St; inversion St; subst; clear St;
           apply rconcl_done; auto; try (intros; discriminate).
-        intros i E. inversion E; subst. split; [exact L|]. exists b. apply kind_eqb_eq in K. auto.
+        intros i E. inversion E; subst. split; [exact L|]. exists b. apply kind_eqb_eq in K. apply schema_eqb_eq in SE. auto.
       * destruct v; inversion St; subst; clear St; apply rconcl_done; auto; intros; discriminate.
     + inversion St; subst; clear St.
       set (s1 := {| rmap := map_store (rmap s) (ro_name (rt_opts th)) (length (robjs s));
